@@ -47,7 +47,7 @@ func writeManifest() {
 		"hooks": map[string]interface{}{
 			"guard":            "verif",
 			"enable":           "go build -tags verif (no source hooks exist: every property is observed at the plugin's process boundary or at the boundary of the generated functions; instrumentation is compiler-inserted: -race, -cover)",
-			"baseline_off_cmd": "cd /repo && go test -vet=off -count=1 ./...",
+			"baseline_off_cmd": "cd /repo && GOFLAGS=-mod=mod GOPROXY=off GOSUMDB=off GOTOOLCHAIN=local go test -vet=off -count=1 ./...",
 			"source_commits":   []string{},
 			"add_only":         true,
 		},
